@@ -173,6 +173,11 @@ def r2(ctx):
             yield VIOL("C01-R2", "sha256/dataflow", "sha256 does not hash exactly its parameter", where=loc(s.j["span"]))
         else:
             yield PASS("C01-R2", "sha256/dataflow", "Sha256::new(); update(param0); finalize()", [site(s, ups[0][0], "update")])
+    nref = (ctx.facts.j.get("refolded") or {}).get("crypto::sha256_hex", 0)
+    if nref and not ctx.facts.find_bodies(r"^crypto::sha256_hex$"):
+        # the wrapper was written out at its call site(s) (`hex::encode(sha256(x))`); the normaliser folded those back
+        yield PASS("C01-R2", "sha256_hex/dataflow", "sha256_hex is written out as hex::encode(sha256(x)) at its %d call site(s)" % nref, [])
+        return
     h = ctx.fn("crypto::sha256_hex")
     hs = h.slice([0])
     if not (hs.has_call(r"crypto::sha256$") and hs.has_call(r"^hex::encode$") and hs.params == {1}):
@@ -243,6 +248,9 @@ def r3b(ctx):
         "crypto::hmac_sha256": r"(Mac|KeyInit)::new_from_slice$|Mac::(update|chain_update|finalize)$|CtOutput::<T>::into_bytes$|Result::<T, E>::(expect|unwrap)$|convert::(Into|From)::\w+$|AsRef::as_ref$|Deref::deref$",
     }
     for fn, ok in CLOSED.items():
+        if (ctx.facts.j.get("refolded") or {}).get(fn) and not ctx.facts.find_bodies("^" + re.escape(fn) + "$"):
+            n += 1  # written out at its call sites as exactly the two calls (that is what was folded back)
+            continue
         b = ctx.fn(fn)
         n += 1
         extra = [t["callee"] for bi, t in b.calls() if not re.search(ok, t["callee"])]
@@ -259,15 +267,44 @@ def r3b(ctx):
 def r4(ctx):
     b = ctx.fn(CR)
     acc = returned_local(b)
+    def only_field(sl, f):
+        """reads self.<f> (directly or through the accessor) and no other field of self"""
+        return sl.reads_field(f) and not [fs for l_, fs in sl.fieldreads if l_ == 1 and fs and fs[0] != f]
+
     must_ingredients = [
-        ("method", lambda sl, t: sl.has_call(r"CanonicalRequest::request_method$")),
-        ("path", lambda sl, t: sl.has_call(r"CanonicalRequest::canonical_path$")),
-        ("query", lambda sl, t: sl.has_call(r"CanonicalRequest::canonical_query_string$")),
+        ("method", lambda sl, t: only_field(sl, "request_method")),
+        ("path", lambda sl, t: only_field(sl, "canonical_path")),
+        ("query", lambda sl, t: sl.has_call(r"CanonicalRequest::canonical_query_string$") or (sl.has_call(r"canonical::canonicalize_query_to_string$") and only_field(sl, "query_parameters"))),
         ("signed-header-list", lambda sl, t: sl.has_call(r"slice::<impl \[T\]>::join$") and 2 in sl.params),
-        ("body-hash", lambda sl, t: sl.has_call(r"CanonicalRequest::body_sha256$")),
+        ("body-hash", lambda sl, t: only_field(sl, "body_sha256")),
     ]
+
+    def list_loop_contrib():
+        """sibling of `signed_headers.join(";")`: `for (i, h) in signed_headers.iter().enumerate() { if i > 0 { push(b';') }
+        extend(h) }` - every element of the parameter is appended (the append post-dominates the Some edge of a loop over the
+        whole list that is not the header-block loop: it does not depend on a header lookup), the loop dominates the returns"""
+        rets_ = b.return_blocks()
+        for cb_, t_, ai_, sl_ in acc_contribs(b, acc):
+            if not (2 in sl_.params and not sl_.has_call(r"HashMap::<K, V, S, A>::get$") and b.in_cycle(cb_)):
+                continue
+            if any(c_["kind"] == "discr" and b.slice([c_["place"]["local"]]).has_call(r"HashMap::<K, V, S, A>::get$") for _, _, c_, _ in guard_conditions(b, cb_)):
+                continue
+            nx_ = [(nb, nt) for nb, nt in sl_.find_calls(r"Iterator::next$") if b.in_cycle(nb) and b.dominates(nb, cb_)]
+            if len(nx_) != 1:
+                continue
+            its_ = b.slice_op(nx_[0][1]["args"][0])
+            if its_.has_call(r"Iterator::(filter|filter_map|skip|take|step_by|skip_while|take_while|rev|chain|zip)$|slice::<impl \[T\]>::(split\w*|chunks\w*|windows|get|first|last)$|HashMap") or 2 not in its_.params:
+                continue
+            st_ = b.term(nx_[0][1]["target"])
+            some_ = [bb for v, bb in st_["targets"] if v == 1] if st_["k"] == "switch" else []
+            if some_ and b.postdominates(cb_, some_[0]) and all(b.dominates(nx_[0][0], r_) for r_ in rets_):
+                return [cb_]
+        return []
+
     for name, pred in must_ingredients:
         must, anyh = must_contrib(b, acc, pred)
+        if not must and name == "signed-header-list":
+            must = list_loop_contrib()
         ctx.count()
         if must:
             yield PASS("C01-R4", "canonical_request/" + name, "appended on every path", [site(b, must[0], name)])
@@ -500,11 +537,55 @@ def r5(ctx):
         else:
             yield PASS("C01-R5", "from_request_parts/request_method/as-is", "request_method = parts.method.to_string()", [])
     for fn_, acc_ in ((r"canonical::canonicalize_uri_path$", r"Uri::path$"), (r"canonical::query_string_to_normalized_map$", r"Uri::query$")):
-        cs_ = [x for x in b.calls(fn_) if b.slice_op(x[1]["args"][0]).has_call(acc_) and not b.slice_op(x[1]["args"][0]).has_call(r"encoding::Encoding::decode$")]
+        # the call that handles the URL is the first one in dominance order (the other one parses the decoded form body);
+        # chain walk, not a slice: `parts` is re-bound by the folding code later in the function
+        cands_ = b.calls(fn_)
+        cs_ = [x for x in cands_ if all(x is y or b.dominates(x[0], y[0]) for y in cands_)]
         for bi_, t_ in cs_[:1]:
-            alt = [c for c in b.slice_op(t_["args"][0]).callee_names() if not re.search(acc_ + r"|Option::<T>::unwrap_or(_default)?$|Deref::deref$|AsRef::as_ref$|Borrow::borrow$", c)]
-            if alt:
-                yield VIOL("C01-R5", "from_request_parts/%s/as-is" % fn_.split("::")[-1].strip("$"), "the request's %s is altered before it is canonicalised (through %s)" % ("path" if "path" in acc_ else "query string", sorted({c.split("::")[-1] for c in alt})), where=b.span_of_block(bi_))
+            o_ = t_["args"][0]
+            why_ = None
+            for _ in range(10):
+                od_ = b.origin_def(o_)
+                if od_ and od_[0] == "def" and od_[1]["kind"] == "call":
+                    cal_ = od_[1]["term"]["callee"]
+                    if re.search(acc_, cal_):
+                        break
+                    if re.search(r"Option::<T>::unwrap_or(_default)?$|Deref::deref$|AsRef::as_ref$|Borrow::borrow$|String::as_str$", cal_):
+                        if re.search(r"unwrap_or$", cal_) and const_str_of(b, od_[1]["term"]["args"][1])[0] != "":
+                            why_ = "a missing query is replaced by something other than the empty string"
+                            break
+                        o_ = od_[1]["term"]["args"][0]
+                        continue
+                    why_ = "through `%s`" % cal_.split("::")[-1]
+                    break
+                if od_ and od_[0] == "multi":
+                    # the desugared `query().unwrap_or("")`: the Some payload of the accessor's result, or ""
+                    srcs_ = [d_ for d_ in b.defs().get(od_[1], []) if d_["kind"] != "mutcall"]
+                    okm_ = bool(srcs_) and "query" in acc_
+                    for d_ in srcs_:
+                        if d_["kind"] != "assign" or d_["stmt"]["rv"]["k"] != "use":
+                            okm_ = False
+                            break
+                        so_ = d_["stmt"]["rv"]["op"]
+                        if const_str_of(b, so_)[0] == "":
+                            continue
+                        pl_ = op_place(so_)
+                        fs_ = [e for e in (pl_ or {}).get("proj", []) if isinstance(e, dict)]
+                        sd_ = b.origin_def({"copy": {"local": pl_["local"], "proj": []}}) if pl_ else None
+                        if not (pl_ and len(fs_) == 2 and fs_[0].get("downcast") == "Some" and sd_ and sd_[0] == "def" and sd_[1]["kind"] == "call" and re.search(acc_, sd_[1]["term"]["callee"])):
+                            okm_ = False
+                            break
+                    if okm_:
+                        break
+                why_ = "the value has several sources or is not the accessor's result"
+                break
+            else:
+                why_ = "conversion chain too long"
+            what_ = "path" if "path" in acc_ else "query string"
+            if why_:
+                yield VIOL("C01-R5", "from_request_parts/%s/as-is" % fn_.split("::")[-1].strip("$"), "the request's %s is altered before it is canonicalised (%s)" % (what_, why_), where=b.span_of_block(bi_))
+            else:
+                yield PASS("C01-R5", "from_request_parts/%s/as-is" % fn_.split("::")[-1].strip("$"), "the request's %s is handed over as the accessor returned it" % what_, [site(b, bi_, fn_.split("::")[-1].strip("$"))])
     # canonicalize_uri_path(parts.uri.path(), options.s3)
     cp = one(b.calls(r"canonical::canonicalize_uri_path$"), "call of canonicalize_uri_path")
     s3 = b.slice_op(cp[1]["args"][1])
@@ -600,14 +681,8 @@ def r7(ctx):
     ok_sl = b.slice_op(oks[0][2]["rv"]["ops"][0])
     if not ok_sl.has_call(r"SigV4Authenticator::validate_signature$"):
         yield VIOL("C01-R7", "entry/ok-payload", "returned tuple does not include the result of validate_signature", where=b.span_of_block(okb))
-    brs = [(bi, t) for bi, t in b.calls(r"Try::branch$") if b.slice_op(t["args"][0]).has_call(r"SigV4Authenticator::validate_signature$") and b.dominates(vs[0], bi)]
-    good = False
-    for bi, t in brs:
-        st = b.term(t["target"])
-        if st["k"] == "switch":
-            cont = [bb for v, bb in st["targets"] if v == 0]
-            if cont and b.dominates(cont[0], okb):
-                good = True
+    se_ = success_edge_of(b, r"SigV4Authenticator::validate_signature$")
+    good = se_ is not None and (se_ == okb or b.dominates(se_, okb))
     if not good:
         yield VIOL("C01-R7", "entry/ok-after-validate_signature", "Ok is not dominated by the success edge of validate_signature(..).await?", where=b.span_of_block(okb))
     else:
